@@ -49,10 +49,17 @@ def cells7() -> List[str]:
     return out
 
 
+REQUEST_VALUES = (12000.0, 350.0, 47000.0, 5.0, 900.0)
+
+
 class Ctx:
-    def __init__(self, fleets: Tuple[str, ...], valid_states: Tuple[str, ...] = ("idle", "repositioning")):
+    def __init__(self, fleets: Tuple[str, ...], valid_states: Tuple[str, ...] = ("idle", "repositioning"), base_threshold_km: Optional[float] = None):
         self.valid_states = tuple(valid_states)
-        self.cfg = make_config(dispatcher={"matching_range_km_threshold": RANGE_THRESHOLD_KM, "valid_dispatch_states": list(valid_states)})
+        self.base_threshold_km = base_threshold_km
+        dconf = {"matching_range_km_threshold": RANGE_THRESHOLD_KM, "valid_dispatch_states": list(valid_states)}
+        if base_threshold_km is not None:
+            dconf["base_charging_range_km_threshold"] = base_threshold_km
+        self.cfg = make_config(dispatcher=dconf)
         self.env = make_env(self.cfg, fleets=fleets)
         self.rn = HaversineRoadNetwork(sim_h3_resolution=15)
         self.base_sim = build_sim(self.env, self.rn)
@@ -78,6 +85,12 @@ class Ctx:
                 v = v.modify_vehicle_state(OutOfService.build(v.id))
             elif attr == "off_shift":
                 v = v.modify_driver_state(HumanUnavailable(HumanDriverAttributes(v.id, "sched", "b0", False)))
+            elif attr.startswith("charging_base:"):
+                # plugged in at a base with this many kWh on board (ChargingBase is dispatchable in this configuration)
+                from nrel.hive.state.vehicle_state.charging_base import ChargingBase
+
+                v = mk_vehicle(self.env, self.rn, f"v{i}", cell, "quiet", energy=float(attr.split(":")[1]), fleets=fl)
+                v = v.modify_vehicle_state(ChargingBase.build(v.id, "b0", "LEVEL_2"))
             elif attr == "en_route_own":
                 # travelling to the request with the same index (which records this vehicle)
                 from nrel.hive.state.vehicle_state.dispatch_trip import DispatchTrip
@@ -95,7 +108,8 @@ class Ctx:
             fleet = None
             if self.fleets and not attr.startswith("public"):
                 fleet = "f2" if attr == "other_fleet" else "f1"
-            r = Request.build(f"r{j}", cell, sites()["M2"], self.rn, SimTime.build(0), 1, False, fleet_id=fleet)
+            # fares differ widely (a price list in a small currency unit): the matching is by grid distance whatever the fares
+            r = Request.build(f"r{j}", cell, sites()["M2"], self.rn, SimTime.build(0), 1, False, fleet_id=fleet, value=REQUEST_VALUES[j % len(REQUEST_VALUES)])
             if attr in ("has_vehicle", "public_has_vehicle"):
                 r = r.assign_dispatched_vehicle("vx", SimTime.build(0))
             elif attr.startswith("assigned:"):
@@ -122,6 +136,8 @@ def vehicle_reason(ctx: Ctx, v, fleet: Optional[str]) -> Optional[str]:
     m = ctx.env.mechatronics[v.mechatronics_id]
     if not m.range_remaining_km(v) > RANGE_THRESHOLD_KM:
         return "range below threshold"
+    if n == "ChargingBase" and ctx.base_threshold_km is not None and m.range_remaining_km(v) < ctx.base_threshold_km:
+        return "range below the threshold for leaving a base"
     if fleet == "<public>":
         if v.membership.memberships:
             return "belongs to a fleet"
@@ -289,6 +305,36 @@ def _elig_shard(shard) -> Dict[str, Any]:
     return out
 
 
+def _chargingbase_shard(shard) -> Dict[str, Any]:
+    """configuration in which vehicles plugged in at a base are dispatchable and the threshold for leaving a base lies BELOW (and,
+    second pass, above) the matching threshold: every combination of (eligible, plugged in with range below both / between /
+    above both thresholds) x (waiting, has a vehicle)"""
+    gi, base_thr = shard
+    ctx = Ctx((), valid_states=("idle", "repositioning", "chargingbase"), base_threshold_km=base_thr)
+    cells = cells7()
+    vcells, rcells = GEOMS[gi]
+    out = {"cases": 0, "nontrivial": 0, "findings": {}, "samples": []}
+    m = ctx.env.mechatronics["quiet"]
+    per_km = 25.0 / m.range_remaining_km(mk_vehicle(ctx.env, ctx.rn, "x", cells[0], "quiet", energy=25.0))
+    lo, hi = sorted((RANGE_THRESHOLD_KM, base_thr))
+    levels = [round(per_km * km, 4) for km in (0.5 * lo, 0.5 * (lo + hi), 1.5 * hi)]
+    attrs = ("eligible",) + tuple(f"charging_base:{e}" for e in levels)
+    for va in itertools.product(attrs, repeat=3):
+        vehicles = [ctx.vehicle(k, cells[vcells[k]], va[k]) for k in range(3)]
+        sim_v = ctx.sim(vehicles, [])
+        for ra in itertools.product(("waiting", "has_vehicle"), repeat=3):
+            sim = sim_v
+            for k in range(3):
+                sim = simulation_state_ops.add_request_safe(sim, ctx.request(k, cells[rcells[k]], ra[k])).unwrap()
+            out["cases"] += 1
+            if any(a != "eligible" for a in va):
+                out["nontrivial"] += 1
+            for sig, msg in judge(ctx, sim):
+                out["findings"].setdefault(sig + ("chargingbase_dispatchable",), (msg, {"kind": "chargingbase", "geometry": gi, "base_threshold_km": base_thr, "vehicle_attrs": list(va), "request_attrs": list(ra)}))
+    out["findings"] = [(list(k), m2, rp) for k, (m2, rp) in out["findings"].items()]
+    return out
+
+
 def _rematch_shard(shard) -> Dict[str, Any]:
     """configuration in which vehicles already travelling to a request may be matched again
     (valid_dispatch_states incl. DispatchTrip): an en-route vehicle is eligible, its own request is not"""
@@ -359,6 +405,7 @@ def c12() -> int:
     eres = pmap(_elig_shard, rotate(eshards, seed()))
     eres += pmap(_rematch_shard, list(range(len(GEOMS))))
     eres += pmap(_public_shard, list(range(len(GEOMS))))
+    eres += pmap(_chargingbase_shard, [(gi, thr) for gi in range(len(GEOMS)) for thr in (RANGE_THRESHOLD_KM / 4.0, RANGE_THRESHOLD_KM * 3.0)])
     cases = sum(r["cases"] for r in gres + eres)
     nontrivial = sum(r["nontrivial"] for r in gres + eres)
     for r in gres + eres:
@@ -398,6 +445,11 @@ def replay(body) -> int:
         rs = [ctx.request(k, cells[rc[k]], rp["request_attrs"][k]) for k in range(3)]
     elif rp["kind"] == "rematch":
         ctx = Ctx((), valid_states=("idle", "repositioning", "dispatchtrip"))
+        vc, rc = GEOMS[rp["geometry"]]
+        vs = [ctx.vehicle(k, cells[vc[k]], rp["vehicle_attrs"][k]) for k in range(3)]
+        rs = [ctx.request(k, cells[rc[k]], rp["request_attrs"][k]) for k in range(3)]
+    elif rp["kind"] == "chargingbase":
+        ctx = Ctx((), valid_states=("idle", "repositioning", "chargingbase"), base_threshold_km=rp["base_threshold_km"])
         vc, rc = GEOMS[rp["geometry"]]
         vs = [ctx.vehicle(k, cells[vc[k]], rp["vehicle_attrs"][k]) for k in range(3)]
         rs = [ctx.request(k, cells[rc[k]], rp["request_attrs"][k]) for k in range(3)]
